@@ -171,11 +171,12 @@ Bad_NoRequestAfterRefusal(c, log)           == {i \in Idx(log) : Off_NoRequestAf
 Bad_RefusalRaises(c, log)                   == {i \in Idx(log) : Off_RefusalRaises(c, log, i)}
 Bad_Retunnelled(c, log)                     == {i \in Idx(log) : Off_Retunnelled(c, log, i)}
 
-ClauseNames == <<"HttpsOnlyViaTunnelUnlessOptedIn", "ConnectTargetExact", "OriginNameVerifiedInsideTunnel",
-                 "FormByRoute", "ProxyHeadersOnlyToProxy", "NoRequestAfterRefusal", "RefusalRaises", "Retunnelled">>
-BadSets(c, log) == <<Bad_HttpsOnlyViaTunnelUnlessOptedIn(c, log), Bad_ConnectTargetExact(c, log),
-                     Bad_OriginNameVerifiedInsideTunnel(c, log), Bad_FormByRoute(c, log),
-                     Bad_ProxyHeadersOnlyToProxy(c, log), Bad_NoRequestAfterRefusal(c, log),
+ClauseNames == <<"NoRequestAfterRefusal", "HttpsOnlyViaTunnelUnlessOptedIn", "ConnectTargetExact",
+                 "OriginNameVerifiedInsideTunnel", "FormByRoute", "ProxyHeadersOnlyToProxy", "RefusalRaises",
+                 "Retunnelled">>
+BadSets(c, log) == <<Bad_NoRequestAfterRefusal(c, log), Bad_HttpsOnlyViaTunnelUnlessOptedIn(c, log),
+                     Bad_ConnectTargetExact(c, log), Bad_OriginNameVerifiedInsideTunnel(c, log),
+                     Bad_FormByRoute(c, log), Bad_ProxyHeadersOnlyToProxy(c, log),
                      Bad_RefusalRaises(c, log), Bad_Retunnelled(c, log)>>
 
 Min(S) == CHOOSE x \in S : \A y \in S : x <= y
